@@ -3,6 +3,11 @@
 // m.VerifRetrieveCh(); processNextDAHeaderAndData is also called directly.  Observed: m.VerifDAHeight()
 // after every item, the GetIDs/Get calls, the events taken from headerInCh/dataInCh, panics, and the
 // DA-included marks of the caches.  Writes cases_C09.v (Model/Retriever.v) and result.json (Go oracle).
+// Tick scenario (genTickCase): long catch-up runs during which the DA double sends DA-block ticks on
+// m.retrieveCh from inside GetIDs (= while an iteration runs and the continuation token is outstanding), so
+// that the loop's select finds both of its channels ready; compared call by call with the two-channel loop
+// model (Model/Retriever.v lturn, Check/RetrieverCheck.v drive), liveness oracle: the loop goes quiet only
+// at a height it could not pass.
 package c09
 
 import (
@@ -1165,7 +1170,7 @@ func genTickCase(r *rand.Rand, seed int64, c int, tier string) *Replay {
 		nh = 400 + r.Intn(501)
 	}
 	density := []int{0, 2, 10, 35, 100}[r.Intn(5)] // percent of outcomes that carry a tick; 0 = exactly one tick in the case
-	pure := r.Intn(3) == 0                           // every height is served at once: an undisturbed catch-up to the DA head
+	pure := r.Intn(3) == 0                         // every height is served at once: an undisturbed catch-up to the DA head
 	tick := func() bool { return density > 0 && r.Intn(100) < density }
 	for i := 0; i < nh; i++ {
 		h := Height{}
@@ -1631,15 +1636,23 @@ func TestVerif(t *testing.T) {
 			}
 			for _, o := range cr.obs {
 				tickIters += len(o.Seen)
-				for i, sn := range o.Seen {
-					// retrieveCh still holds a value after the select although a tick was in it before: select
-					// had both channels ready and took the token; the other order shows as a buffered tick gone
-					if i > 0 && (o.Seen[i-1][0] || o.Seen[i-1][1]) {
+				// the i-th GetIDs call of the item belongs to Seen[i]
+				var gh []uint64
+				for _, c := range o.Calls {
+					if !c.Get {
+						gh = append(gh, c.H)
+					}
+				}
+				for i := 1; i < len(o.Seen) && i < len(gh); i++ {
+					// a call for the NEXT height: the previous iteration passed its height and re-armed the token;
+					// if a tick was buffered or sent during it, select found BOTH channels ready: retrieveCh still
+					// holding a value means it took the token, empty means it took the tick
+					if gh[i] == gh[i-1]+1 && (o.Seen[i-1][0] || o.Seen[i-1][1]) {
 						tickBoth++
-						if sn[0] {
-							res.Count("tick:select-took-token-with-tick-buffered")
+						if o.Seen[i][0] {
+							res.Count("tick:both-ready-select-took-token")
 						} else {
-							res.Count("tick:select-took-tick-or-retry-call")
+							res.Count("tick:both-ready-select-took-tick")
 						}
 					}
 				}
@@ -1719,7 +1732,7 @@ func TestVerif(t *testing.T) {
 	res.Distribution["tick:da-heights-scripted"] = tickHeights
 	res.Distribution["tick:ticks-scripted"] = tickTicks
 	res.Distribution["tick:getids-calls"] = tickIters
-	res.Distribution["tick:getids-calls-after-a-buffered-or-sent-tick"] = tickBoth
+	res.Distribution["tick:selects-with-both-channels-ready"] = tickBoth
 	for i, rp := range tReplays {
 		res.Replays[fmt.Sprint(len(cases)+i)] = rp // tick cases are numbered after the ordinary ones
 	}
